@@ -187,6 +187,9 @@ theorem Inv.of_frame {s s' : St} (hI : Inv s) (hf : Frame s s') (hix : IdxOk s')
   bmlen_al := by rw [hf.bmlen, hf.bsz]; exact hI.bmlen_al
   bmlen_pos := by rw [hf.bmLenBlk]; exact hI.bmlen_pos
   au := by rw [hf.aunitBlk]; exact hI.au
+  aunit_al := by rw [hf.aunit, hf.bsz]; exact hI.aunit_al
+  bmoff_pg := by rw [hf.bmoff, hf.aunit]; exact hI.bmoff_pg
+  hdr_al := by rw [hf.hdrlen, hf.bsz]; exact hI.hdr_al
 
 /-- release of an allocated range outside header and bitmap preserves the invariant -/
 theorem inv_deallocLw {s : St} (hI : Inv s) {off len : Nat} (hlen : 0 < len) (hend : off + len ≤ nbits s)
